@@ -7,7 +7,7 @@ ASSUMPTIONS = ['known findings excluded from the main comparison: K1 (code point
                'floats: the theorem carries the decidable side condition flt_okb (printed digits read back as the same double); it is evaluated by the model on every float this run prints (flt_okb_checked)']
 TRUSTED = ['Rust Display for u64/i64/f64 (modelled by digits_of_N / flt2dec: shortest round-trip digits, positional notation)']
 
-NUMS = ['0', '-0', '1', '-1', '9223372036854775807', '-9223372036854775808', '18446744073709551615', '18446744073709551616', '-9223372036854775809',
+NUMS = ['0', '-0', '-0.0', '-0e2', '-0.0e-5', '0.0', '1', '-1', '9223372036854775807', '-9223372036854775808', '18446744073709551615', '18446744073709551616', '-9223372036854775809',
         '5e-324', '1.797e308', '1.7976931348623157e308', '0.1', '0.2', '0.30000000000000004', '1e21', '1e-7', '123456.789', '2.5', '-2.5', '1e22', '1e23', '4.35', '0.000001', '1e-5', '9007199254740993', '1.5e300', '2.2250738585072014e-308', '3.0', '1E2']
 
 def gen_value(rnd, depth, astral):
